@@ -24,7 +24,7 @@ def replay(ctx, data):
 
 MANIFEST = {
     "text": "Theorems over every reachable state of the HMS machine: summary's metaepoch count, total evaluations (= all evaluation requests so far) and deme count, and the totals equal the "
-            "sums over levels; the deme lines are exactly the root plus every deme that has run at least one metaepoch (a deme with children has run — machine invariant); each line carries "
+            "sums over levels; the deme lines are exactly the root plus every deme that has run at least one metaepoch (a deme with children has run — machine invariant); no deme is displayed twice; each line carries "
             "its own deme's evaluation count and the *** marker is on exactly the displayed demes whose best equals the global best. Tie: at every boundary of generated runs the printed "
             "summary()/tree() is parsed and compared with the report model evaluated by vm_compute on abs(tree) (itself compared with the machine by the trace replay of C03-C08).",
     "note": "Partial: 'never invoke the objective, never change observable state, same answer twice' is decided by probes around 13 accessors on real trees (call log, deep tree digest, "
